@@ -7,6 +7,8 @@
 
 #include <models/ModelBuilder.h>
 
+#include <string>
+
 namespace opensmt {
 class IDLSolver : public STPSolver<SafeInt> {
 public:
@@ -16,7 +18,8 @@ public:
 template<>
 SafeInt Converter<SafeInt>::getValue(Number const & val) {
     assert(val.isInteger());
-    return SafeInt(static_cast<ptrdiff_t>(val.get_d()));
+    // exact conversion (a double keeps only 53 bits); a value that does not fit 64 bits raises std::out_of_range
+    return SafeInt(static_cast<ptrdiff_t>(std::stoll(val.get_str())));
 }
 
 template<>
